@@ -303,7 +303,7 @@ Theorem hull_areas_vec_correct indexes blocks r :
   hull_areas_vec indexes blocks = Some r -> r = map hull_area_obj blocks.
 Proof.
   intros ND NN HL H. unfold hull_areas_vec in H.
-  set (tsize := maxl (map fst (hull_rows indexes blocks)) + 1) in *.
+  set (tsize := tsize_of indexes blocks) in *.
   destruct (existsb (fun l => tsize <=? l) indexes) eqn:Ex; [discriminate|]. injection H as <-.
   set (nd := filter (fun lb : Z * list (Z * Z) => 3 <=? zlenv (snd lb)) (combine indexes blocks)).
   assert (Sz : forall j, In j indexes -> j < tsize).
@@ -327,14 +327,12 @@ Proof.
   rewrite E. apply place_correct. exact HL.
 Qed.
 
-(* and it does not raise exactly when every requested label is at most the largest label that has a hull row *)
-Theorem hull_areas_vec_defined indexes blocks :
-  (forall j, In j indexes -> j <= maxl (map fst (hull_rows indexes blocks))) ->
-  hull_areas_vec indexes blocks <> None.
+(* and it never raises: the label tables have max(largest hull label, largest requested label) + 1 entries *)
+Theorem hull_areas_vec_defined indexes blocks : hull_areas_vec indexes blocks <> None.
 Proof.
-  intros H. unfold hull_areas_vec.
-  destruct (existsb (fun l => maxl (map fst (hull_rows indexes blocks)) + 1 <=? l) indexes) eqn:Ex; [|discriminate].
-  apply existsb_exists in Ex. destruct Ex as [j [Hj L]]. specialize (H j Hj). lia.
+  unfold hull_areas_vec.
+  destruct (existsb (fun l => tsize_of indexes blocks <=? l) indexes) eqn:Ex; [|discriminate].
+  apply existsb_exists in Ex. destruct Ex as [j [Hj L]]. pose proof (maxl_ge indexes j Hj). unfold tsize_of in L. lia.
 Qed.
 
 (* per-label independence, request order and renumbering in one statement: the entry of position r is a function
@@ -394,13 +392,13 @@ Proof. induction Ls as [|[a b] t IH]; [reflexivity|]. cbn [map combine fst snd].
 
 (* hull[counts_per_label[hull[:, 0]] >= 3] is the concatenation of the non-degenerate labels' rows *)
 Theorem compaction indexes blocks :
-  NoDup indexes -> (forall j, In j indexes -> 0 <= j < maxl (map fst (hull_rows indexes blocks)) + 1) ->
+  NoDup indexes -> (forall j, In j indexes -> 0 <= j) ->
   length indexes = length blocks ->
   let nd := filter (fun lb : Z * list (Z * Z) => 3 <=? zlenv (snd lb)) (combine indexes blocks) in
   hull_nd_as_written indexes blocks = hull_rows (map fst nd) (map snd nd).
 Proof.
   intros ND NN HL nd. unfold hull_nd_as_written.
-  set (tsize := maxl (map fst (hull_rows indexes blocks)) + 1) in *.
+  set (tsize := tsize_of indexes blocks) in *.
   set (cpl := scatter (combine indexes (map zlenv blocks)) (repeat 0 (Z.to_nat tsize))).
   unfold hull_rows. rewrite combine_fst_snd. rewrite filter_concat, map_map.
   (* block by block *)
@@ -416,11 +414,11 @@ Proof.
       - apply (IH r k H). }
     f_equal. unfold nthz, cpl.
     apply (scatter_nodup_nth 0 indexes (map zlenv blocks) _ k l (zlenv b) ND).
-    - intros j Hj. rewrite repeat_length. specialize (NN j Hj). fold tsize in NN. lia.
+    - intros j Hj. rewrite repeat_length. specialize (NN j Hj). pose proof (maxl_ge indexes j Hj). unfold tsize, tsize_of. lia.
     - rewrite map_length. exact HL.
     - exact El.
     - rewrite nth_error_map, Ebk. reflexivity. }
-  unfold nd. unfold cpl in *. revert G. generalize (combine indexes blocks). intros Ls G. induction Ls as [|lb t IH]; [reflexivity|].
+  unfold nd. unfold cpl in *. clearbody tsize. revert G. unfold hrow, cpt in *. generalize (combine indexes blocks). intros Ls G. induction Ls as [|lb t IH]; [reflexivity|].
   cbn [map concat filter].
   transitivity ((if 3 <=? zlenv (snd lb) then map (pair (fst lb)) (snd lb) else []) ++
                 concat (map (fun lb0 : Z * list cpt => map (pair (fst lb0)) (snd lb0))
